@@ -505,26 +505,34 @@ def py_offset_tabulate(ctx, rule: str, name: str, m: core.Mod, fn: ast.FunctionD
         ctx.unverified(rule, f"py:{name}", "no block that tests the sign of an offset string was found", m.loc(fn))
         return None
     bad = []
+    zone = lambda off, *a, **k: minieval.Stub(_offset=off)          # noqa: E731 - the zone object built from the offset: what the block is for
+    utc = minieval.Stub(_offset=0)
+    zcls = minieval.ClassStub(_new=zone, _isa=lambda v: False)
+    glob = {"FixedTimezone": zcls, "UTC": utc, "pendulum": minieval.Stub(timezone=zone, FixedTimezone=zcls, UTC=utc), "timezone": zone,
+            "int": int, "bool": bool, "len": len, "cast": lambda t, v: v, "ValueError": ValueError}
+
+    def zones_in(v, depth=0):
+        if isinstance(v, minieval.Stub) and hasattr(v, "_offset"):
+            yield v._offset
+        elif isinstance(v, dict) and depth < 2:
+            for x in v.values():
+                yield from zones_in(x, depth + 1)
     try:
         for text, want in OFFSET_INPUTS:
-            env = {svar: text}
+            env = {svar: text, "parsed": {}}
+            got = []
             try:
-                for st_ in region:
-                    try:
-                        minieval.run([st_], env, funcs)
-                    except core.Unsupported:
-                        if isinstance(env.get("offset"), int):
-                            break           # the offset is computed; what follows (building the zone object) is not part of it
-                        raise
-                got = env.get("offset")
-                if got is None:
-                    ints = [v for k, v in env.items() if isinstance(v, int) and not isinstance(v, bool) and k != svar]
-                    got = ints[-1] if ints else None
+                minieval.run(region, env, {**funcs, "$globals": dict(glob)})
+                for k, v in env.items():
+                    got += list(zones_in(v))
             except minieval._Return as r:
-                got = r.value
-            if got != want:
-                bad.append(f"{text!r} -> {got!r} (expected {want})")
-    except (core.Unsupported, ValueError, TypeError, IndexError, KeyError) as e:
+                got = list(zones_in(r.value))
+            if len(set(got)) != 1:
+                # the block does not end in one zone object built from the offset: what it computes cannot be read off it
+                raise core.Unsupported(f"the block leaves {len(set(got))} zone objects for {text!r}")
+            if got[0] != want or isinstance(got[0], bool) or not isinstance(got[0], int):
+                bad.append(f"{text!r} -> {got[0]!r} (expected {want})")
+    except (core.Unsupported, ValueError, TypeError, IndexError, KeyError, AttributeError, minieval.Raised) as e:
         ctx.unverified(rule, f"py:{name}", f"the block is outside the checker's interpreter: {e}", m.loc(fn))
         return None
     ctx.ob(rule, f"py:{name}/tabulated", not bad,
